@@ -43,7 +43,7 @@ PROPS = {
     },
     "C11": {
         "module": "ScpiVerif.Props.C11",
-        "domains": [{"name": "regs", "cfgs": ["A"]}],
+        "domains": [{"name": "regs", "cfgs": ["A"], "keep": "regs"}],
         "clauses": ["C11."],
         "level": "proof",
         "trusted_base": [KERNEL, TRANSLATOR + " — scpi_reg_details, scpi_reg_group_details, STB_*/ESR_* constants, register numbering", CORR, PLATFORM],
@@ -103,20 +103,20 @@ def _pprop(mod, doms, clauses, rule, extra=None):
             "trusted_base": [KERNEL, CORR + "; guarded hooks report each message handed to SCPI_Parse and poison the stale tail of the input buffer", PLATFORM,
                              "libc number conversion (strtol family, strtod/strtof correctly rounded) as specified in Model/Prim.lean and Spec/Float.lean"] + (extra or []),
             "assumptions": [_CTX], "rule": _PRULE + rule}
-PROPS["C02"] = _pprop("ScpiVerif.Props.C02", [{"name": "p02", "cfgs": ["A"]}, {"name": "p06", "cfgs": ["A"]}], ["C02."],
+PROPS["C02"] = _pprop("ScpiVerif.Props.C02", [{"name": "p02", "cfgs": ["A"], "keep": "P,H,G,E-113"}, {"name": "p06", "cfgs": ["A"], "keep": "P,H,G,E-113"}], ["C02."],
     "messages of 1..6 units with headers in every spelling (short / long, case, leading colon, optional keywords in or out, numeric suffixes, relative headers, undefined, common), overlapping and duplicate patterns; judged: handler sequence and effective headers recomputed from the raw message with Spec/Message.lean + Spec/Pattern.lean; non-trivial = at least one handler or error event")
-PROPS["C06"] = _pprop("ScpiVerif.Props.C06", [{"name": "p06", "cfgs": ["A"]}, {"name": "p02", "cfgs": ["A"]}], ["C06."],
+PROPS["C06"] = _pprop("ScpiVerif.Props.C06", [{"name": "p06", "cfgs": ["A"], "keep": "P,H,W,F"}, {"name": "p02", "cfgs": ["A"], "keep": "P,H,W,F"}], ["C06."],
     "messages of 1..6 units mixing commands and queries whose scripts emit 0..4 items of every result type and succeed or fail, one or two messages per context; judged: bytes written and flush count per SCPI_Input call against frame() over independently encoded items")
 PROPS["C08"] = _pprop("ScpiVerif.Props.C08", [{"name": "p08", "cfgs": ["A"]}], ["C08."],
     "streams of 1..4 messages (well-formed, with malformed fragments, blocks with embedded terminators, quoted strings, empty units) fed all at once / in two pieces / in random pieces of up to 9 bytes, each compared with byte-at-a-time feeding of the same stream on a second context")
 PROPS["C09"] = _pprop("ScpiVerif.Props.C09", [{"name": "p09", "cfgs": ["A"]}], ["C09."],
     "1..3 messages A (including failing ones, unfinished blocks, unterminated tails) then a message B; B on the used context is compared with B on a fresh context that was given the same registers and error queue")
-PROPS["C05"] = _pprop("ScpiVerif.Props.C05", [{"name": "p05", "cfgs": ["A"]}], ["C05."],
+PROPS["C05"] = _pprop("ScpiVerif.Props.C05", [{"name": "p05", "cfgs": ["A"], "keep": "P,H,I,L,B,C,N,Y,X,A,E"}], ["C05."],
     "units pairing every typed reader (mandatory / optional, one to three readers, arrays, stop-on-failure) with parameter lists of 0..4 items of every data type, with white space around commas and malformed fragments")
-PROPS["C04"] = _pprop("ScpiVerif.Props.C04", [{"name": "p04", "cfgs": ["A"]}, {"name": "p05", "cfgs": ["A"]}], ["C04."],
+PROPS["C04"] = _pprop("ScpiVerif.Props.C04", [{"name": "p04", "cfgs": ["A"], "keep": "P,H,I,L,B,C,N"}, {"name": "p05", "cfgs": ["A"], "keep": "P,H,I,L,B,C,N"}], ["C04."],
     "decimal literals of every shape (1..25 digits, sign, point, exponent, white space before the exponent and after its E), #H/#Q/#B literals up to the type width, integer width boundaries, through the six numeric readers and SCPI_ParamNumber; every row of the unit table in four casings and three separations; every special mnemonic in short and long form and three casings; judged bit-exactly against Spec/Float.lean (correctly rounded value of the literal) and the generated unit table",
     ["translate/extract.py — scpi_units_def with multipliers as exact rationals, scpi_special_numbers_def"])
-PROPS["C17"] = _pprop("ScpiVerif.Props.C17", [{"name": "p17", "cfgs": ["A"]}, {"name": "p06", "cfgs": ["A"]}], ["C17."],
+PROPS["C17"] = _pprop("ScpiVerif.Props.C17", [{"name": "p17", "cfgs": ["A"], "keep": "P,H,W,F,E"}, {"name": "p06", "cfgs": ["A"], "keep": "P,H,W,F,E"}], ["C17."],
     "one query whose script emits 1..3 blocks / binary arrays / integers: whole blocks of 0..300 random bytes, arrays of every element size (1, 2, 4, 8) in both byte orders with 0..37 elements, streamed header + data calls (exact, short, over-length chunk, zero-length chunks), header-only calls for every power of ten up to 10^8; judged by an independent streaming encoder (bytes, completed items, refused chunks)")
 PROPS["C18"] = {"module": "ScpiVerif.Props.C18", "domains": [{"name": "errstr", "cfgs": ["A", "B", "C"]}], "clauses": ["C18."], "level": "proof",
     "trusted_base": [KERNEL, TRANSLATOR + " — LIST_OF_ERRORS descriptions, fallback text, 255-character limit", CORR, PLATFORM],
@@ -138,7 +138,7 @@ PROPS["C07"] = {"module": "ScpiVerif.Props.C07", "domains": [{"name": "roundtrip
     "trusted_base": [KERNEL, CORR, PLATFORM, "libc number conversion as specified in Model/Prim.lean; float closeness rests on printf/strtod of the C library (trusted, compared on every run)"],
     "assumptions": ["writer side from C14 / C17 / C18, lexer side from C13, reader side from the context model"],
     "rule": "cases = a result script and the response it produced re-submitted as the parameter of the matching reader: all 2^8 and 2^16 values, boundary and random 32/64-bit values in bases 2, 8, 10, 16, strings over an alphabet with both quotes, blocks of 0..1100 random bytes, random and boundary floats / doubles; non-trivial = every case"}
-PROPS["C01"] = _pprop("ScpiVerif.Props.C01", [{"name": "p01", "cfgs": ["A", "B", "C", "D"]}, {"name": "lexer", "cfgs": ["A"]}], ["C01."],
+PROPS["C01"] = _pprop("ScpiVerif.Props.C01", [{"name": "p01", "cfgs": ["A", "B", "C", "D"], "keep": "P,R,M,X,A,Y"}, {"name": "lexer", "cfgs": ["A"]}], ["C01."],
     "mutated messages (byte flips, deletions, insertions, syntax characters, truncation), input buffers of 2..200 bytes, queue capacities 1..4, random segmentation with over-long chunks and zero-length calls, in all four build configurations under ASan+UBSan with the buffer-tail poisoning hook")
 
 NOT_CLAIMED = {}
@@ -204,9 +204,9 @@ _T["C07"] = ("Theorems unsigned_roundtrip / signed_roundtrip / narrow_roundtrip 
 _T["C04"] = ("PARTIAL with a recorded finding. Proved: literal_has_value, integer_exact_signed / integer_exact_unsigned (every in-range decimal integer literal decodes exactly in all four widths), nondecimal_exact (#H/#Q/#B up to the type width), conversion_sees_literal_partial (a decimal literal WITHOUT inner white space, not the single digit 0 followed by x/X, is converted whole by strtod whatever follows it), unit_names_distinct, unit_names_lex_whole, translateUnit_finds, unit_prefix_rule (every row of the generated unit table has multiplier 1, is explained by an SI prefix of table 7-2, or is one of nine listed rows), special_mnemonics. Disproved and kept visible: conversion_counterexample ('1 E3' lexes as one literal of value 1000 but converts as 1) - genuine defect, recorded as known finding C04.whitespace_in_literal; hexfloat_counterexample ('0x1': unobservable, the suffix is always rejected, unit_names_no_x). Correct rounding of strtod is trusted (C library) and judged on every run against exact rational arithmetic.",
             "Lean kernel + standard axioms; translator for the unit table (multipliers as exact rationals) and special numbers; strtod's rounding is trusted libc and judged per run with Spec/Float.lean; context model tied to parser.c/units.c/utils.c by scripted differential testing",
             "Lean 4 theorems over reader models and generated unit table + exact-rational judge + differential correspondence")
-_T["C08"] = ("PARTIAL with a recorded finding. Proved for every context, every partition into non-empty chunks and every stream (pending bytes included) without quote characters: input_split_partial / chunking_invariant_partial / chunking_invariant_noquote_nocr / chunking_bytewise_partial (no CR in the stream: any two partitions, and feeding byte by byte, give the same handler invocations, parameters, errors, parsed messages, output bytes, flushes, registers, error queue and unconsumed remainder), input_split_cr_partial / chunking_invariant_cr_partial (CR LF and lone CR terminators allowed, partitions that do not cut directly after a CR), scan_prefix_stable (the terminator scan of SCPI_Input decides on bytes already present), flush_executes_pending (a zero-length call executes the pending bytes as one message and empties the buffer); definite-length blocks with arbitrary data are covered. They rest on the proved model lemma parseLocalCR (SCPI_Parse of a message ending in LF or CR never depends on buffer bytes behind it). Disproved and kept visible: chunking_counterexample (a line terminator inside a quoted string ends the message when the stream arrives in pieces and not when it arrives whole) - genuine defect, known finding C08.terminator_inside_quotes; chunking_crlf_difference (a cut between CR and LF makes the LF an empty message of its own: same handlers, parameters and output; only the hook's message record differs).",
-            "Lean kernel + standard axioms; context model tied to parser.c by scripted differential testing of every case in two segmentations (P8 mode) plus directed streams with numeric tails and flush calls, under ASan with the buffer-tail poisoning hook",
-            "Lean 4 theorems (scan / parse / move decomposition of SCPI_Input, locality of SCPI_Parse) + differential correspondence of two segmentations")
+_T["C08"] = ("PARTIAL with a recorded finding. Proved for every context and every stream (pending bytes included) WITHOUT QUOTE CHARACTERS: chunking_invariant_noquote / chunking_bytewise_noquote / input_split_noquote - any two partitions into non-empty chunks (cuts directly after a CR included), and feeding byte by byte, give the same handler invocations, parameters, errors, output bytes, flushes, registers, error queue and unconsumed remainder (UserObservable); the stronger Observable, which also records the message boundaries seen by the verification hook, is equal for streams without CR (input_split_partial, chunking_invariant_partial, chunking_invariant_noquote_nocr, chunking_bytewise_partial) and for partitions that do not cut directly after a CR (input_split_cr_partial, chunking_invariant_cr_partial); scan_prefix_stable (the terminator scan of SCPI_Input decides on bytes already present); flush_executes_pending (a zero-length call executes the pending bytes as one message and empties the buffer). Definite-length blocks with arbitrary data are covered. All rest on the proved model lemma parseLocalCR (SCPI_Parse of a message ending in LF or CR never depends on buffer bytes behind it). Disproved and kept visible: chunking_counterexample (a line terminator inside a quoted string ends the message when the stream arrives in pieces and not when it arrives whole) - genuine defect, known finding C08.terminator_inside_quotes; chunking_crlf_difference (a cut between CR and LF makes the LF an empty message of its own: same handlers, parameters and output; only the hook's message record differs).",
+            "Lean kernel + standard axioms; context model tied to parser.c by scripted differential testing of every case in two segmentations (P8 mode, a quarter of them with an exact-fit input buffer) plus directed streams with numeric tails and flush calls, under ASan with the buffer-tail poisoning hook",
+            "Lean 4 theorems (scan / parse / move decomposition of SCPI_Input, locality of SCPI_Parse, CR LF case analysis) + differential correspondence of two segmentations")
 for _k, (_a, _b, _c) in _T.items():
     PROPS[_k]["level_text"], PROPS[_k]["level_note"], PROPS[_k]["technique"] = _a, _b, _c
 
